@@ -155,6 +155,30 @@ def load_sites(fnode, module):
     return out
 
 
+def loader_helper(prog, call, module):
+    """If `call` invokes a repository function whose only job is to unpickle a stream and return the loaded object
+    (one load site, every return returns the name bound to it or the load call itself), that function; else None."""
+    g = resolve_callee(prog, call, module)
+    if g is None:
+        return None
+    ls = load_sites(g.node, g.module)
+    if len(ls) != 1:
+        return None
+    pm = parents(g.node)
+    st = pm.get(id(ls[0][0]))
+    bound = st.targets[0].id if isinstance(st, ast.Assign) and len(st.targets) == 1 and isinstance(st.targets[0], ast.Name) else None
+    rets = [r for r in ast.walk(g.node) if isinstance(r, ast.Return)]
+    if not rets:
+        return None
+    for r in rets:
+        if r.value is ls[0][0]:
+            continue
+        if bound is not None and isinstance(r.value, ast.Name) and r.value.id == bound:
+            continue
+        return None
+    return g
+
+
 def _exc_names(type_node):
     if type_node is None:
         return ["<bare except>"]
